@@ -76,6 +76,7 @@ type ZEnv struct {
 	hasHi      map[string]bool
 	symVal     map[string]ssa.Value
 	loadSym    map[*ssa.UnOp]string
+	loadSubst  map[*ssa.UnOp]ssa.Value
 	phiLenMemo map[*ssa.Phi]Lin
 	phiLenBusy map[*ssa.Phi]bool
 }
@@ -144,7 +145,7 @@ func (z *ZEnv) lenSym(name string) Lin {
 // loadName gives a flow-sensitive canonical name to a load of a field / variable.
 func (z *ZEnv) loadName(u *ssa.UnOp) (string, ssa.Value) {
 	if s, ok := z.loadSym[u]; ok {
-		return s, nil
+		return s, z.loadSubst[u]
 	}
 	name := ""
 	var subst ssa.Value
@@ -169,6 +170,12 @@ func (z *ZEnv) loadName(u *ssa.UnOp) (string, ssa.Value) {
 		name = z.Canon(u)
 	}
 	z.loadSym[u] = name
+	if subst != nil {
+		if z.loadSubst == nil {
+			z.loadSubst = map[*ssa.UnOp]ssa.Value{}
+		}
+		z.loadSubst[u] = subst
+	}
 	return name, subst
 }
 
